@@ -231,14 +231,16 @@ def body(col: Collector, case):
         # ---- boundary: u == alpha exactly must be a rejection
         if case["boundary"] and not individual and len(blocks) == 1:
             a = torch.as_tensor(decisions[0]["alpha"]).reshape(())
-            if 0 < float(a) < 1:
+            # the forced draw is a float32 like the real one: only alphas exactly representable in float32 can be hit
+            if 0 < float(a) < 1 and float(a.to(torch.float32)) == float(a):
                 r3 = run_step(c, case, forced_u=a.to(torch.float32))
                 if bool(r3["decisions"][0]["accepted"]):
                     raise Fail("acceptance:accepted-at-u==alpha", "accepted", "rejected (accepted exactly when u is *below* exp(-D))")
                 classes.append("boundary-checked")
         if case["boundary"] and individual:
-            a = torch.as_tensor(decisions[0]["alpha"]).to(torch.float32)
-            ok = (a > 0) & (a < 1)
+            a_raw = torch.as_tensor(decisions[0]["alpha"])
+            a = a_raw.to(torch.float32)
+            ok = (a > 0) & (a < 1) & (a.to(a_raw.dtype) == a_raw)
             if bool(ok.any()):
                 forced = torch.where(ok, a, torch.full_like(a, 0.5))
                 r3 = run_step(c, case, forced_u=forced)
